@@ -20,13 +20,43 @@ uint8_t _ZNK7QString10startsWithERKS_N2Qt15CaseSensitivityE(char *self, char *o,
   return _ZN9QtPrivate10startsWithE11QStringViewS0_N2Qt15CaseSensitivityE(a->f1, (char*)qs_chars(a), b->f1, (char*)qs_chars(b), cs); }
 uint8_t _ZNK7QString8endsWithERKS_N2Qt15CaseSensitivityE(char *self, char *o, uint32_t cs) { QAD *a = *(QAD**)self, *b = *(QAD**)o; ASSERT(cs == 1, "case-insensitive compare not modelled");
   return _ZN9QtPrivate8endsWithE11QStringViewS0_N2Qt15CaseSensitivityE(a->f1, (char*)qs_chars(a), b->f1, (char*)qs_chars(b), cs); }
+/* QStringBuilder piece `QConcatenable<QString>::appendTo(const QString &a, QChar *&out)` (Qt inline: memcpy(out, a.constData(), 2*a.size()); out += a.size()).
+   cbmc's library memcpy with a symbolic size havocs the destination block (spurious, non-replayable counterexamples seen with the
+   real jidBare() = user + '@' + domain).  Same contract with typed unit-by-unit writes into the destination model block. */
+static void vpl_c11_append(QAD *blk, uint32_t off, QAD *s) { uint32_t n = s->f1; for (uint32_t i = 0; i < (s->f3 == QS_OFF ? ((struct qs*)s)->hint : s->f1); i++) { if (i >= n) break; SD(blk)[off + i] = qs_chars(s)[i]; } }
+void _ZN13QConcatenableI7QStringE8appendToERKS0_RP5QChar(char *a, char *out) { QAD *s = *(QAD**)a; uint16_t *p = *(uint16_t**)out; uint32_t n = s->f1;
+#ifdef __CPROVER__
+  ASSERT(__CPROVER_POINTER_OFFSET(p) >= QS_OFF, "QStringBuilder: destination is not a model string block");
+  vpl_c11_append((QAD*)((char*)p - __CPROVER_POINTER_OFFSET(p)), (uint32_t)((__CPROVER_POINTER_OFFSET(p) - QS_OFF) / 2), s);
+#else
+  for (uint32_t i = 0; i < n; i++) p[i] = qs_chars(s)[i];
+#endif
+  *(uint16_t**)out = p + n; }
 /* logging: no-op (DESIGN 2.5) */
 void _ZN13QXmppLoggable10logMessageEN11QXmppLogger11MessageTypeERK7QString(char *self, uint32_t type, char *msg) { }
 /* ---- client / configuration ---- */
-static char *c11_client; static QAD *c11_bare; static char *c11_cfgobj[2];
-void vp_c11_setup(char *client, char *bareJid) { c11_client = client; c11_bare = qad_ref(*(QAD**)bareJid); }
-char* _ZN11QXmppClient13configurationEv(char *self) { ASSERT(self == c11_client, "C11 env: configuration() of an unknown client"); return (char*)c11_cfgobj; }
-void _ZNK18QXmppConfiguration7jidBareEv(char *ret, char *self) { ASSERT(self == (char*)c11_cfgobj, "C11 env: jidBare() of an unknown configuration"); *(QAD**)ret = qad_ref(c11_bare); }
+/* the client's configuration is a REAL QXmppConfiguration object (src/client/QXmppConfiguration.cpp is linked) built by the harness
+   with the real setters; user()/domain()/resource()/jid()/jidBare() are the real getters */
+static char *c11_client; static char *c11_cfg;
+void vp_c11_setup(char *client, char *cfg) { c11_client = client; c11_cfg = cfg; }
+char* _ZN11QXmppClient13configurationEv(char *self) { ASSERT(self == c11_client, "C11 env: configuration() of an unknown client"); return c11_cfg; }
+/* own bare JID as the oracle composes it: user empty ? domain : user '@' domain (fresh block, written unit by unit) */
+#define C11_BARECAP 6
+void vp_c11_compose_bare(char *out, char *user, char *domain) { QAD *u = *(QAD**)user, *d = *(QAD**)domain; uint32_t ul = u->f1, dl = d->f1; ASSUME(ul <= 2 && dl <= 3);
+  if (ul == 0) { *(QAD**)out = qad_ref(d); return; }
+  QAD *r = qs_new(ul + 1 + dl, C11_BARECAP); const uint16_t *U = qs_chars(u), *D = qs_chars(d);
+  for (uint32_t i = 0; i < C11_BARECAP; i++) { uint16_t c = 0; if (i < ul) c = U[i < 2 ? i : 0]; else if (i == ul) c = '@'; else if (i - ul - 1 < dl) c = D[i - ul - 1 < 3 ? i - ul - 1 : 0]; SD(r)[i] = c; }
+  *(QAD**)out = r; }
+/* value types the configuration object merely carries along: opaque 8-byte handles (as in harness/C05/models.c) */
+void _ZN13QNetworkProxyC1Ev(char *self) { *(char**)self = 0; }
+void _ZN13QNetworkProxyC1ERKS_(char *self, char *o) { *(char**)self = *(char**)o; }
+void _ZN13QNetworkProxyD1Ev(char *self) { }
+void _ZN15QSslCertificateC1ERKS_(char *self, char *o) { *(char**)self = *(char**)o; }
+void _ZN15QSslCertificateD1Ev(char *self) { }
+void _ZN9QDateTimeC1Ev(char *self) { *(char**)self = 0; }
+void _ZN9QDateTimeC1ERKS_(char *self, char *o) { *(char**)self = *(char**)o; }
+void _ZN9QDateTimeC1EOS_(char *self, char *o) { *(char**)self = *(char**)o; *(char**)o = 0; }
+void _ZN9QDateTimeD1Ev(char *self) { }
 /* ---- deliveries ---- */
 struct c11_del { uint8_t kind; char *target; char *mo; uint32_t sigidx; struct dnode *parsed; uint32_t nparse; uint8_t carbon, alive; };
 #define C11_DELCAP 3
